@@ -112,6 +112,9 @@ class Project:
     def write(self):
         with open(self.path, "w", encoding="utf-8", newline="") as f:
             f.write(self.scen["sql"])
+        for rel, sql in (self.scen.get("extra_files") or {}).items():
+            with open(os.path.join(self.root, rel), "w", encoding="utf-8", newline="") as f:
+                f.write(sql)
 
     def read(self) -> str:
         with open(self.path, encoding="utf-8", newline="") as f:
@@ -124,9 +127,9 @@ class Project:
         pr = subprocess.run([pool.PYTHON, "-m", "sqlfluff"] + args, cwd=self.root, input=stdin.encode("utf-8") if stdin is not None else None, capture_output=True, timeout=timeout, env=self.env())
         return pr.returncode, pr.stdout.decode("utf-8", "replace"), pr.stderr.decode("utf-8", "replace")
 
-    def api(self, op: str, timeout=400):
+    def api(self, op: str, timeout=400, rel=None):
         """Run sqlfluff.lint / sqlfluff.fix with FluffConfig.from_path(file) in a fresh process."""
-        pr = subprocess.run([pool.PYTHON, "-m", "vfw.props.cliscen", op, self.rel], cwd=self.root, capture_output=True, timeout=timeout, env=self.env())
+        pr = subprocess.run([pool.PYTHON, "-m", "vfw.props.cliscen", op, rel or self.rel], cwd=self.root, capture_output=True, timeout=timeout, env=self.env())
         out = pr.stdout.decode("utf-8", "replace")
         try:
             return json.loads(out.strip().splitlines()[-1])
